@@ -557,7 +557,7 @@ theorem finalBases_class {proj : Project} {s : St} (hI : PdInv proj s) {c b : Na
     | some o =>
       simp only [hg, beq_iff_eq] at hcl
       exact ⟨o, hg, hcl⟩
-  unfold finalBases at hb
+  unfold finalBases finalBasesIn at hb
   cases hd : dget s.cinfo c with
   | none => simp [hd] at hb
   | some ci =>
